@@ -32,6 +32,13 @@ class Thing(Base):
         return self.own(a) + 1
     def own(self, a):
         return a + self.v
+class Deep(Thing):
+    def deepest(self, a):
+        return self.inherited(a)
+def fast(cb, a):
+    return cb(a)
+def slow(cb, a):
+    return cb(a) + 1
 def make():
     def produced(a):
         return a - 1
@@ -54,6 +61,10 @@ CALLS = {
     "constructor": "t = Thing(2)",
     "method": "t = Thing(2)\nr = t.method(3)",
     "inherited": "t = Thing(2)\nr = t.inherited(3)",
+    "inherited-2": "d = Deep(2)\nr = d.inherited(3)",
+    "inherited-2-self": "d = Deep(2)\nr = d.deepest(3)",
+    "poly-callback-a": "if len('a') > 0:\n    hh = fast\nelse:\n    hh = slow\nr = hh(helper, 1)",
+    "poly-callback-b": "if len('a') > 5:\n    hh = fast\nelse:\n    hh = slow\nr = hh(other, 1)",
     "callback": "r = apply(helper, 4)",
     "callback-lambda": "r = apply(lambda q: q + 5, 4)",
     "returned": "f = make()\nr = f(5)",
@@ -70,11 +81,12 @@ CALLS = {
 }
 IMPORT_FORMS = {
     "one-file": None,
-    "from-import": "from lib import helper, other, Base, Thing, make, apply, rec, ping, pong",
+    "from-import": "from lib import helper, other, Base, Thing, Deep, fast, slow, make, apply, rec, ping, pong",
+    "reexport": "from facade import helper, other, Base, Thing, Deep, fast, slow, make, apply, rec, ping, pong",
     "module-attr": "import lib",
     "alias": "import lib as L",
-    "from-alias": "from lib import helper as helper, other as other, Thing as Thing, make as make, apply as apply, rec as rec, ping as ping",
-    "package": "from pkg.lib import helper, other, Base, Thing, make, apply, rec, ping, pong",
+    "from-alias": "from lib import helper as helper, other as other, Thing as Thing, Deep as Deep, fast as fast, slow as slow, make as make, apply as apply, rec as rec, ping as ping",
+    "package": "from pkg.lib import helper, other, Base, Thing, Deep, fast, slow, make, apply, rec, ping, pong",
 }
 POSITIONS = ["top", "function", "method", "nested"]
 
@@ -82,7 +94,7 @@ POSITIONS = ["top", "function", "method", "nested"]
 def qualify(body, form):
     if form in ("module-attr", "alias"):
         pre = "lib." if form == "module-attr" else "L."
-        for n in ("helper", "other", "Thing", "make", "apply", "rec", "ping"):
+        for n in ("helper", "other", "Thing", "Deep", "fast", "slow", "make", "apply", "rec", "ping"):
             body = body.replace(n + "(", pre + n + "(").replace(" " + n + ",", " " + pre + n + ",").replace("= " + n + "\n", "= " + pre + n + "\n")
             body = body.replace("[" + n + ",", "[" + pre + n + ",").replace(", " + n + "]", ", " + pre + n + "]").replace(": " + n + "}", ": " + pre + n + "}")
             body = body.replace("(" + n + ",", "(" + pre + n + ",")
@@ -107,6 +119,9 @@ def build(kind, form, position):
         return {"main.py": LIB + main}
     if form == "package":
         return {"pkg/__init__.py": "", "pkg/lib.py": LIB, "main.py": IMPORT_FORMS[form] + "\n" + main}
+    if form == "reexport":
+        facade = IMPORT_FORMS["from-import"] + "\ndef own_fn(a):\n    return a\n"
+        return {"lib.py": LIB, "facade.py": facade, "main.py": IMPORT_FORMS[form] + "\n" + main}
     return {"lib.py": LIB, "main.py": IMPORT_FORMS[form] + "\n" + main}
 
 
@@ -132,7 +147,7 @@ def cpython_edges(files):
                 bf = os.path.realpath(caller.f_code.co_filename)
                 if cf.startswith(root) and bf.startswith(root) and callee.co_name not in ("<module>",) \
                         and not (callee.co_name in ("Base", "Thing", "Runner") and callee.co_firstlineno != 0 and frame.f_code.co_flags & 0 == 0 and callee.co_name[0].isupper() and "__qualname__" in frame.f_locals or False):
-                    if callee.co_name in ("Base", "Thing", "Runner"):
+                    if callee.co_name in ("Base", "Thing", "Runner", "Deep"):
                         return      # class body execution, not a call
                     edges.add((key(caller.f_code), caller.f_lineno, key(callee)))
         saved_path = list(sys.path)
@@ -177,6 +192,7 @@ def main():
     cases = [(k, f, p) for k in CALLS for f in forms for p in POSITIONS]
     if quick:
         cases = [(k, f, p) for (k, f, p) in cases if p in ("top", "function") or f in ("one-file", "from-import")]
+        cases = [(k, f, p) for (k, f, p) in cases if f != "reexport" or p == "function"]
     stats = {"programs": 0, "true_edges": 0, "found": 0}
     samples = []
     for idx, res in runner.fork_map(run_case, cases, cpu_limit=300):
